@@ -25,6 +25,11 @@ MustReject == [][(l <= Len(T.ops) /\ T.ops[l].must = "reject") => lastFailed']_v
 MustAccept == [][(l <= Len(T.ops) /\ T.ops[l].must = "accept") => ~lastFailed']_vars
 \* ... and a rejected value leaves the record unchanged
 FailedAssignIsNoOp == lastFailed => ~changed
+\* a record built without a value for the field starts with the empty default, whatever was done to other records' defaults
+FreshStartsEmpty == [][(l <= Len(T.ops) /\ T.ops[l].op = "fresh") => slot' = "unset"]_vars
+\* input that is converted on the way in arrives as the documented value (UTF-8 text with surrogate escapes; the same wall
+\* clock at UTC) -- whatever locale or time zone the process runs in
+ConvertedAsDocumented == [][(l <= Len(T.ops) /\ T.ops[l].op = "convert") => T.ops[l].conv_ok]_vars
 \* a record that accepted all its assignments can always be serialised, and decodes to typed slots again
 Serialisable == (fin.done /\ fin.all_accepted) => (fin.packed /\ fin.decoded_typed)
 =============================================================================
